@@ -30,7 +30,7 @@ NEEDS_DEPS = True
 SHARDS = {"quick": 16, "thorough": 16}
 FLOOR = {"quick": 1500, "thorough": 30000}
 REQUIRED_COUNTERS = ["law_decode_checks", "law_encode_checks", "failure_injections", "serializer_contract_evals",
-                     "cyclic_graphs", "order_comparisons", "trees_with_meta"]
+                     "cyclic_graphs", "order_comparisons", "trees_with_meta", "partial_documents"]
 RULE = ("random dataclass type trees (depth<=4; list/dict/Optional/nested dataclass; leaves str,int,float,bool,bytes,datetime,date; "
         "Meta maps none/bijective/keyword-like/case-fold-colliding) as imported source modules x random instances; each batch in "
         "3 first-use orders in fresh processes; a case = (tree, instance, law); non-trivial = instance has a nested container, "
@@ -38,7 +38,7 @@ RULE = ("random dataclass type trees (depth<=4; list/dict/Optional/nested datacl
 ASSUMPTIONS = ["laws stated for total documents; partial documents may re-encode absent keys with the field's declared default",
                "runs on /repo/src/pyopenapi_gen/core, which C12 shows is byte-identical to what clients receive"]
 
-LEAVES = ["str", "int", "float", "bool", "bytes", "datetime", "date"]
+LEAVES = ["str", "int", "float", "bool", "bytes", "datetime", "date", "time", "UUID"]
 KEYWORDISH = ["class", "from", "id", "type", "import", "return", "def", "pass"]
 
 
@@ -104,8 +104,8 @@ def render_type(t: dict) -> str:
 
 
 def render_module(classes: list[dict]) -> str:
-    out = ["from dataclasses import dataclass, field", "from datetime import date, datetime",
-           "from typing import Any, Dict, List, Optional", ""]
+    out = ["from dataclasses import dataclass, field", "from datetime import date, datetime, time",
+           "from typing import Any, Dict, List, Optional", "from uuid import UUID", ""]
     # nested classes are created after their parents in `classes`; emit in reverse so references resolve at import
     for c in reversed(classes):
         out += ["@dataclass", f"class {c['name']}:"]
@@ -155,6 +155,13 @@ def gen_value(rng, t: dict, cmap: dict[str, dict], depth: int = 0) -> tuple[Any,
                             rng.randint(0, 59), rng.randint(0, 59),
                             tzinfo=rng.choice([None, dt.timezone.utc, dt.timezone(dt.timedelta(hours=2))]))
             return {"datetime": v.isoformat()}, v.isoformat(), True
+        if ty == "time":
+            v = dt.time(rng.randint(0, 23), rng.randint(0, 59), rng.randint(0, 59))
+            return {"time": v.isoformat()}, v.isoformat(), True
+        if ty == "UUID":
+            import uuid as _uuid
+            v = _uuid.UUID(int=rng.getrandbits(128))
+            return {"uuid": str(v)}, str(v), True
         v = dt.date(2020 + rng.randint(0, 5), rng.randint(1, 12), rng.randint(1, 28))
         return {"date": v.isoformat()}, v.isoformat(), True
     if k == "list":
@@ -190,6 +197,11 @@ def build(desc: Any, mod) -> Any:
         return dt.datetime.fromisoformat(desc["datetime"])
     if "date" in desc:
         return dt.date.fromisoformat(desc["date"])
+    if "time" in desc:
+        return dt.time.fromisoformat(desc["time"])
+    if "uuid" in desc:
+        import uuid as _uuid
+        return _uuid.UUID(desc["uuid"])
     if "list" in desc:
         return [build(x, mod) for x in desc["list"]]
     if "dict" in desc:
@@ -282,6 +294,21 @@ def child_main(spec_path: str, out_path: str) -> None:
             res["serialize_ok"] = True
         except Exception as e:
             res["encode_exc"] = f"{type(e).__name__}: {str(e)[:300]}"
+        # partial document: keys of fields with defaults omitted -> decodes to the defaults, re-encodes tolerantly
+        part = case.get("partial")
+        if part is not None:
+            try:
+                from vmon import refmodel
+                got = cc.structure_from_dict(part["json"], cls)
+                want = build(part["py"], mod)
+                res["partial_decode_equal"] = got == want
+                back = cc.unstructure_to_dict(got)
+                d = refmodel.jdiff(part["json"], json.loads(json.dumps(back, default=repr)))
+                res["partial_reencode_ok"] = d is None
+                if d:
+                    res["partial_detail"] = d[:200]
+            except Exception as e:
+                res["partial_exc"] = f"{type(e).__name__}: {str(e)[:200]}"
         # failure injection
         inj = case.get("inject")
         if inj:
@@ -473,6 +500,13 @@ def run_shard(ctx: Ctx) -> None:
             for inst in range(6 if ctx.quick else 12):
                 py, js, nontriv = gen_value(rng, {"k": "dc", "name": root}, cmap)
                 case = {"module": modname, "cls": root, "py": py, "json": js, "tree": prefix, "nontrivial": nontriv}
+                rootc = cmap[root]
+                dflt = [f for f in rootc["fields"] if f["default"]]
+                if dflt and rng.random() < 0.5:
+                    drop = [f for f in dflt if rng.random() < 0.7] or dflt[:1]
+                    pj = {k: v for k, v in js.items() if k not in {f["wire"] for f in drop}}
+                    ppy = {"dc": root, "fields": {k: v for k, v in py["fields"].items() if k not in {f["py"] for f in drop}}}
+                    case["partial"] = {"json": pj, "py": ppy}
                 if rng.random() < 0.4:
                     inj = inject(rng, {"k": "dc", "name": root}, js, cmap, [])
                     if inj:
@@ -527,6 +561,14 @@ def run_shard(ctx: Ctx) -> None:
                 rec.violation("law:encode_raises", feats, full, res["encode_exc"])
             elif not res["encode_equal"]:
                 rec.violation("law:encode_not_equal", feats, full, res.get("encode_detail", ""))
+            if "partial_exc" in res:
+                rec.violation("law:partial_decode_raises", feats, full, res["partial_exc"])
+            elif "partial_decode_equal" in res:
+                rec.count("partial_documents")
+                if not res["partial_decode_equal"]:
+                    rec.violation("law:partial_decode_not_defaults", feats, full, "absent keys did not decode to the declared defaults")
+                if not res["partial_reencode_ok"]:
+                    rec.violation("law:partial_reencode_differs", feats, full, res.get("partial_detail", ""))
             if "inject" in res:
                 rec.count("failure_injections")
                 rec.seen("inject_outcomes", res["inject"])
